@@ -261,7 +261,7 @@ def run(ctx):
         incon("Propagation.tla emitted no behaviours")
 
     # 2. the real code: replay both, record the mutation trace (one go test invocation)
-    n = 1000 if quick else 20000
+    n = 1000 if quick else 10000
     trace = ctx.path("tenant_trace.ndjson")
     ptrace = ctx.path("propagation_trace.ndjson")
     env = {"VERIF_IN_TENANT": rt.out_path, "VERIF_IN_PROP": rp.out_path, "VERIF_TRACE": trace, "VERIF_N": n,
